@@ -1,7 +1,7 @@
 ------------------------------- MODULE RigidFit -------------------------------
 (* C16, exhaustive model.  A case is <<kind, payload>>:
 
-   "fit"    <<P, gi, ti, mask, noise, fd, md, ff, mf, hs>>
+   "fit"    <<P, gi, ti, mask, noise, fd, md, ff, mf, hs, kf>>
             P a lattice point set; the fixed structure(s) and the mobile structure(s) are
             rigid images of P:   fixed model j  = ProperSeq-rotation/translation number j of P
                                  mobile model j = GroupSeq[gi + 7(j-1)] . P + translation, plus
@@ -12,14 +12,20 @@
             displaced by (1/2, 1/2, 1/2) - a rigid motion's translation is a real vector, an
             integer grid is in general fitted onto off-grid positions.  The witness bound is
             invariant under translations (claim), so W needs no half ticks.
+            kf = the FORM of the selection (RigidFitOps!MaskForms: boolean ndarray / list,
+            integer index array of either width, unsorted, list of ints; "none" without a
+            selection).  The selected SET of atoms, and with it every expected value, does not
+            depend on kf.
             Expected: the broadcasting outcome, and for every transformation k the lattice
             witness bound W_k on the masked atoms and whether the whole fitted model must
             coincide with the fixed one.
-   "affine" <<cs, gis, ts, X, depth, form, den, tform>>  AffineTransformation(cs / den,
+   "affine" <<cs, gis, ts, X, depth, form, den, tform, rform>>  AffineTransformation(cs / den,
             rotations, ts / den) applied to the coordinates X (depth 0) or to `depth` translated
             copies of X handed over in `form`, and its 4x4 form.  Expected images and matrices
-            are numerators over den; tform = dtype of the constructor arrays.
-   "hist"   <<cs, gis, ts, X, depth, ops, form, den, tform>>  a HISTORY on one transformation
+            are numerators over den; tform = dtype of the two translation arrays, rform = dtype of
+            the rotation array (a lattice rotation is an integer matrix - the class docstring
+            writes it with ints -, whatever the translations are).
+   "hist"   <<cs, gis, ts, X, depth, ops, form, den, tform, rform>>  a HISTORY on one transformation
             object: accessor calls, edits of returned arrays, edits of the attributes
             (RigidFitOps: histories).  Expected: after every step the attributes and, for
             accessors, the result - a function of the current attributes only.
@@ -30,13 +36,21 @@
             coordinates, whether outlier removal is switched off.  The reported anchors of the
             execution are judged by Trace.tla (W on exactly the reported anchors).
 
-   "far"    <<P, C, qs, t, nz, mask, fd, md, ff, mf>>  motions off the lattice (RigidFitOps: integer
+   "far"    <<P, C, qs, t, nz, mask, fd, md, ff, mf, kf>>  motions off the lattice (RigidFitOps: integer
             quaternions): fixed = C + P (C may lie far from the origin), mobile model j =
             C + R(qs[j]) P + t (+ noise nz on its first atom); t = <<x, y, z, den>> and
             nz = <<x, y, z, den>> are rationals.  Expected: for every transformation the
             generating motion's inverse as a rational AffineTransformation (the WITNESS
             placement), its exact mean squared deviation over the masked atoms, the rounding
             allowance in ulps and the ulp exponent of the coordinate magnitude.
+
+   "big"    <<blocks, gi, ti, fd, md, ff, mf, sel, kf>>  LARGE structures, run-length encoded (RigidFitOps:
+            large structures): blocks[b] = <<point set, count, scale, offset, displacement d_b>>;
+            fixed = the tiled blocks, mobile model j = g_j (fixed + d_b) + t_j.  Expected: the
+            block cycles of fixed and mobile, the counts, and the exact mean squared deviation of
+            the witness placement "g^-1, centroids aligned" (0 for an exact rigid copy).
+            sel = <<>> or <<one BOOLEAN per block>>: a selection of whole blocks, handed over in
+            the form kf; witness and deviation are then those of the selected atoms.
 
    S1 claims are listed in Evaluate. *)
 EXTENDS RigidFitOps, SequencesExt
@@ -60,7 +74,7 @@ MobileModel(P, gi, ti, noise, j) ==
 
 EvalFit(c) ==
   LET P == c[1]  gi == c[2]  ti == c[3]  mask == c[4]  noise == c[5]  fd == c[6]  md == c[7]
-      ff == c[8]  mf == c[9]  hs == c[10]
+      ff == c[8]  mf == c[9]  hs == c[10]  kf == c[11]
       n  == Len(P)
       A  == MaskSet(mask, n)
       bc == Broadcast(fd, md)
@@ -90,6 +104,8 @@ EvalFit(c) ==
            \A k \in 1..nT : \E h \in Proper : ScaledDev(Sub(F[FixedOf(k, fd)], A), Sub(M[MobileOf(k, md)], A), h) = W[k][1],
            \* the coordinates are representable in the chosen forms
            Dom_Form(mf, M, 1) /\ Dom_Form(ff, F, 1) /\ (hs = 1 => ~IntForm(ff)),
+           \* the selection is well-formed in its form (non-empty set of positions; no form without a selection)
+           Dom_MaskForm(kf, mask, n),
            \* W does not depend on where the fixed structure lies: in half ticks, fixed displaced
            \* by (1/2, 1/2, 1/2) (every scaled deviation is multiplied by 4)
            (hs = 1 /\ nT >= 1) =>
@@ -97,7 +113,7 @@ EvalFit(c) ==
 
 AffModels(X, depth) == [j \in 1..ModelCount(depth) |-> [k \in DOMAIN X |-> VAdd(X[k], <<j - 1, 2 * (j - 1), 0>>)]]
 EvalAffine(c) ==
-  LET cs == c[1]  gis == c[2]  ts == c[3]  X == c[4]  depth == c[5]  form == c[6]  den == c[7]  tform == c[8]
+  LET cs == c[1]  gis == c[2]  ts == c[3]  X == c[4]  depth == c[5]  form == c[6]  den == c[7]  tform == c[8]  rform == c[9]
       Ts == [k \in DOMAIN cs |-> Xf(cs[k], GroupSeq[gis[k]], ts[k])]
       oc == ApplyOutcome(Len(cs), depth)
       mods == AffModels(X, depth)
@@ -110,8 +126,10 @@ EvalAffine(c) ==
            \* apply is x |-> R x + (R c + t): distances are preserved
            \A k \in DOMAIN cs : \A i, j \in DOMAIN X :
               Dist2(ApplyXf(Ts[k], X[i]), ApplyXf(Ts[k], X[j])) = Dist2(X[i], X[j]),
-           \* integer constructor arrays cannot hold half ticks
-           tform = "i64" => den = 1 >> >>
+           \* integer constructor arrays cannot hold half ticks; the rotation is an integer matrix
+           \* and can be held in every numeric dtype
+           tform = "i64" => den = 1,
+           rform \in ToSet(RForms) /\ \A k \in DOMAIN gis : IntMatrix(GroupSeq[gis[k]]) >> >>
 
 (* ------------------------------------------------------------------ histories *)
 HistRun(Ts0, ops, mods, den) ==
@@ -124,7 +142,7 @@ HistRun(Ts0, ops, mods, den) ==
            [Ts |-> Ts0, steps |-> <<>>], ops).steps
 AccessorResults(steps) == LET a == SelectSeq(steps, LAMBDA s : IsAccessor(s.op)) IN [i \in DOMAIN a |-> a[i].res]
 EvalHist(c) ==
-  LET cs == c[1]  gis == c[2]  ts == c[3]  X == c[4]  depth == c[5]  ops == c[6]  form == c[7]  den == c[8]  tform == c[9]
+  LET cs == c[1]  gis == c[2]  ts == c[3]  X == c[4]  depth == c[5]  ops == c[6]  form == c[7]  den == c[8]  tform == c[9]  rform == c[10]
       Ts0 == [k \in DOMAIN cs |-> Xf(cs[k], GroupSeq[gis[k]], ts[k])]
       mods == AffModels(X, depth)
       steps == HistRun(Ts0, ops, mods, den)
@@ -141,7 +159,8 @@ EvalHist(c) ==
            \A s \in DOMAIN steps : IsAccessor(steps[s].op) =>
               LET prev == IF s = 1 THEN [c |-> cs, R |-> [k \in DOMAIN cs |-> GroupSeq[gis[k]]], t |-> ts] ELSE steps[s - 1] IN
               steps[s].c = prev.c /\ steps[s].R = prev.R /\ steps[s].t = prev.t,
-           ApplyOutcome(Len(cs), depth) = "ok" /\ (tform = "i64" => den = 1) >> >>
+           ApplyOutcome(Len(cs), depth) = "ok" /\ (tform = "i64" => den = 1),
+           rform \in ToSet(RForms) /\ \A s \in DOMAIN steps : \A k \in DOMAIN cs : IntMatrix(steps[s].R[k]) >> >>
 
 (* ------------------------------------------------------------------ anchors *)
 Displace(M, outl) ==
@@ -171,7 +190,7 @@ EvalAnch(c) ==
 (* ------------------------------------------------------------------ motions off the lattice *)
 MaxAbs3(v) == MaxI(Abs(v[1]), MaxI(Abs(v[2]), Abs(v[3])))
 EvalFar(c) ==
-  LET P == c[1]  C == c[2]  qs == c[3]  t == c[4]  nz == c[5]  mask == c[6]  fd == c[7]  md == c[8]  ff == c[9]  mf == c[10]
+  LET P == c[1]  C == c[2]  qs == c[3]  t == c[4]  nz == c[5]  mask == c[6]  fd == c[7]  md == c[8]  ff == c[9]  mf == c[10]  kf == c[11]
       n  == Len(P)
       A  == MaskSet(mask, n)
       bc == Broadcast(fd, md)
@@ -192,11 +211,51 @@ EvalFar(c) ==
            \* a displaced atom outside the mask does not count
            (1 \notin A) => W[1] = 0,
            bc[1] = "ok" /\ Len(qs) = ModelCount(md) /\ ModelCount(fd) = 1 /\ nT = Len(qs),
-           FineForm(ff) /\ FineForm(mf) /\ t[4] >= 1 /\ nz[4] >= 1 /\ A # {} >> >>
+           FineForm(ff) /\ FineForm(mf) /\ t[4] >= 1 /\ nz[4] >= 1 /\ A # {} /\ Dom_MaskForm(kf, mask, n) >> >>
+
+(* ------------------------------------------------------------------ large structures *)
+\* the expanded structure (small instances only)
+Tile(cycles, counts) ==
+  FoldLeft(LAMBDA acc, b : acc \o [i \in 1..counts[b] |-> cycles[b][((i - 1) % Len(cycles[b])) + 1]], <<>>, [b \in DOMAIN counts |-> b])
+BigG(gi, j) == GroupSeq[ProperIdx[((gi + 5 * (j - 1)) % 24) + 1]]
+EvalBig(c) ==
+  LET blocks == c[1]  gi == c[2]  ti == c[3]  fd == c[4]  md == c[5]  ff == c[6]  mf == c[7]  sel == c[8]  kf == c[9]
+      counts == [b \in DOMAIN blocks |-> blocks[b][2]]
+      selb == [b \in DOMAIN blocks |-> IF sel = <<>> \/ sel[1][b] THEN 1 ELSE 0]
+      scounts == [b \in DOMAIN blocks |-> selb[b] * counts[b]]       \* an unselected block has no fitted atom
+      nsel == SumSeq(scounts)
+      ds == [b \in DOMAIN blocks |-> blocks[b][5]]
+      n  == SumSeq(counts)
+      bc == Broadcast(fd, md)
+      T(j) == TransSeq[((ti + j) % 5) + 1]
+      FB == [b \in DOMAIN blocks |-> BlockCycle(blocks[b][1], blocks[b][3], blocks[b][4])]
+      MB == [j \in 1..ModelCount(md) |-> [b \in DOMAIN blocks |->
+                [k \in DOMAIN FB[b] |-> VAdd(MatVec(BigG(gi, j), VAdd(FB[b][k], ds[b])), T(j))]]]
+      W  == BigWitness(scounts, ds)
+      small == n <= 40
+      Fx == IF small THEN Tile(FB, counts) ELSE <<>>
+      flags == IF small THEN Tile([b \in DOMAIN blocks |-> <<selb[b]>>], counts) ELSE <<>>
+      A  == {i \in DOMAIN flags : flags[i] = 1}
+  IN << <<bc[2], bc[3], FB, MB, counts, n, W, selb, nsel>>,
+        << bc[1] = "ok" /\ ModelCount(fd) = 1 /\ \A b \in DOMAIN blocks : counts[b] >= 1,
+           \* an exact rigid copy admits a placement without any deviation
+           W[1] >= 0 /\ ((\A b \in DOMAIN blocks : ds[b] = Zero3) => W[1] = 0),
+           \* the witness placement is a proper rotation
+           \A j \in 1..ModelCount(md) : Transpose(BigG(gi, j)) \in Proper,
+           \* on instances small enough to be expanded the formula IS the lattice deviation of that placement
+           \* (ScaledDev = n^2 * sum = n^3 * msd), and the lattice bound W of the 24 placements is not above it
+           small => \A j \in 1..ModelCount(md) :
+                      /\ Len(Fx) = n /\ Cardinality(A) = nsel
+                      /\ ScaledDev(Sub(Fx, A), Sub(Tile(MB[j], counts), A), Transpose(BigG(gi, j))) = nsel * W[1]
+                      /\ WitnessBoundOn(Fx, Tile(MB[j], counts), A)[1] <= nsel * W[1],
+           \* scaling lemma: a k-fold repetition of every block has the same bound
+           small => \A k \in {2, 3, 7} : LET Wk == BigWitness([b \in DOMAIN counts |-> k * scounts[b]], ds) IN Wk[1] * W[2] = W[1] * Wk[2],
+           nsel >= 1 /\ (sel = <<>> <=> kf = "none") /\ (sel # <<>> => kf \in ToSet(MaskForms) /\ Len(sel[1]) = Len(blocks)),
+           ff # "f16" /\ mf # "f16" /\ Dom_Form(ff, FB, 1) /\ \A j \in DOMAIN MB : Dom_Form(mf, MB[j], 1) >> >>
 
 Evaluate(c) == CASE c[1] = "fit" -> EvalFit(c[2]) [] c[1] = "affine" -> EvalAffine(c[2])
                  [] c[1] = "hist" -> EvalHist(c[2]) [] c[1] = "anch" -> EvalAnch(c[2])
-                 [] c[1] = "far" -> EvalFar(c[2])
+                 [] c[1] = "far" -> EvalFar(c[2]) [] c[1] = "big" -> EvalBig(c[2])
 
 (* ------------------------------------------------------------------ bounded families *)
 PointSets == <<
@@ -216,6 +275,9 @@ PointSets == <<
 MasksFor(n) ==
   {<<>>} \cup (IF n >= 2 THEN {<<[k \in 1..n |-> k # n]>>, <<[k \in 1..n |-> k <= 2]>>} ELSE {})
       \cup (IF n >= 4 THEN {<<[k \in 1..n |-> k # 2]>>, <<[k \in 1..n |-> k % 2 = 1]>>} ELSE {})
+      \* without the FIRST atom (the one that carries the perturbation): position 0 is the one an
+      \* integer index array may or may not hold
+      \cup (IF n >= 3 THEN {<<[k \in 1..n |-> k # 1]>>} ELSE {})
 Depths == <<<<0, 0>>, <<0, 2>>, <<1, 0>>, <<2, 2>>, <<1, 3>>, <<3, 3>>, <<2, 0>>, <<2, 1>>, <<2, 3>>, <<0, 1>>, <<1, 1>>>>
 FormNo(f) == CHOOSE i \in DOMAIN Forms : Forms[i] = f
 NF == Len(Forms)
@@ -227,9 +289,13 @@ MobForm(gi, p, mask, nz) == Forms[((gi + 5 * p + 3 * MaskNo(mask) + 7 * NoiseNo(
 FixForm(gi, p, mask, nz) == Forms[((2 * gi + p + MaskNo(mask) + NoiseNo(nz)) % NF) + 1]
 \* (gi \div 2: with an even number of forms the parity of gi is tied to the parity of the mobile form)
 HalfShift(gi, p, mask, nz) == IF IntForm(FixForm(gi, p, mask, nz)) THEN 0 ELSE ((gi \div 2) + p + MaskNo(mask)) % 2
+\* the form of the selection cycles too
+NMF == Len(MaskForms)
+MaskFormOf(key, mask) == IF mask = <<>> THEN "none" ELSE MaskForms[(key % NMF) + 1]
 FitCases(PS, GI, NZ) ==
   {<<"fit", <<PointSets[p], gi, (gi + p) % 5, mask, noise, Depths[((gi + 3 * p) % Len(Depths)) + 1][1], Depths[((gi + 3 * p) % Len(Depths)) + 1][2],
-              FixForm(gi, p, mask, noise), MobForm(gi, p, mask, noise), HalfShift(gi, p, mask, noise)>>>> :
+              FixForm(gi, p, mask, noise), MobForm(gi, p, mask, noise), HalfShift(gi, p, mask, noise),
+              MaskFormOf(gi + (gi \div 6) + 2 * p + MaskNo(mask) + NoiseNo(noise), mask)>>>> :
       p \in PS, gi \in GI, noise \in NZ, mask \in UNION {MasksFor(Len(PointSets[q])) : q \in PS}}
 FitOK(c) == c[2][4] = <<>> \/ Len(c[2][4][1]) = Len(c[2][1])
 
@@ -240,8 +306,11 @@ AffGis(GI) == {<<g>> : g \in GI} \cup {<<g, ((g + 10) % 48) + 1>> : g \in GI} \c
 AffKey(cs, gis, depth, form) == gis[1] + depth + Len(cs) + FormNo(form)
 DenOf(k) == (k % 2) + 1
 TFormOf(k) == IF DenOf(k) = 2 THEN <<"f32", "f64">>[((k \div 2) % 2) + 1] ELSE <<"f32", "f64", "i64">>[((k \div 2) % 3) + 1]
+\* dtype of the rotation array: 7 is coprime to the periods of DenOf / TFormOf, every (den, tform, rform) occurs
+RFormOf(k) == RForms[((k % 7) % 4) + 1]
 AffineCases(GI, FS) ==
-  {<<"affine", <<cs, gis, ts, X, depth, form, DenOf(AffKey(cs, gis, depth, form)), TFormOf(AffKey(cs, gis, depth, form))>>>> :
+  {<<"affine", <<cs, gis, ts, X, depth, form, DenOf(AffKey(cs, gis, depth, form)), TFormOf(AffKey(cs, gis, depth, form)),
+                 RFormOf(AffKey(cs, gis, depth, form) + Len(ts[1]) + ts[1][2])>>>> :
       cs \in AffCs, gis \in AffGis(GI), ts \in AffTs,
       X \in {<<<<1, 2, 3>>>>, <<<<0, 0, 0>>, <<1, 0, 0>>, <<-2, 5, 1>>>>},
       depth \in 0..3, form \in FS}
@@ -258,7 +327,7 @@ HistKey(st, g, ops) == st + g + Len(ops) + Cardinality({i \in DOMAIN ops : ops[i
 HistCases(GI, L) ==
   {<<"hist", <<HistStarts[st][1], [k \in DOMAIN HistStarts[st][2] |-> ((g + 10 * (k - 1)) % 48) + 1], HistStarts[st][3],
                <<<<0, 0, 0>>, <<1, 0, 0>>, <<-2, 5, 1>>>>, HistStarts[st][4], ops,
-               Forms[((HistKey(st, g, ops) + 4 * st) % NF) + 1], DenOf(HistKey(st, g, ops)), TFormOf(HistKey(st, g, ops))>>>> :
+               Forms[((HistKey(st, g, ops) + 4 * st) % NF) + 1], DenOf(HistKey(st, g, ops)), TFormOf(HistKey(st, g, ops)), RFormOf(HistKey(st, g, ops) + st)>>>> :
       st \in DOMAIN HistStarts, g \in GI, ops \in OpSeqs(L)}
 
 \* anchors: CA traces, residue patterns, motions, every single displaced residue and one pair
@@ -312,28 +381,60 @@ FarCases(PS, CS, QS, scale) ==
        P == [k \in DOMAIN FarSets[p] |-> VScale(scale, FarSets[p][k])]
    IN <<"far", <<P, FarCentres[ci], [j \in 1..ModelCount(dp[2]) |-> FarQuats[((qi + 3 * (j - 1) - 1) % Len(FarQuats)) + 1]],
                  FarTrans[ti], FarNoise[ni], FarMasks(Len(P))[((key \div 2) % 5) + 1], dp[1], dp[2],
-                 FineForms[((key + ci) % NFine) + 1], FineForms[((2 * key + p + 1) % NFine) + 1]>>>> :
+                 FineForms[((key + ci) % NFine) + 1], FineForms[((2 * key + p + 1) % NFine) + 1],
+                 MaskFormOf(key + qi + ci, FarMasks(Len(P))[((key \div 2) % 5) + 1])>>>> :
       p \in PS, ci \in CS, qi \in QS, ti \in DOMAIN FarTrans, ni \in DOMAIN FarNoise}
 
-CasesTiny(z) == {c \in FitCases({3, 10}, {1, 2, 9}, {Zero3}) : FitOK(c)} \cup {c \in AffineCases({1, 20}, {"f32", "i64"}) : AffOK(c)}
-                   \cup HistCases({5}, 3) \cup {c \in AnchCases({3}, {2}) : AnchOK(c)}
-                   \cup FarCases({1, 4}, {1, 4}, {1, 5, 10}, 1)
-CasesQuick(z) == {c \in FitCases(DOMAIN PointSets, 1..48, {Zero3, <<1, 0, 0>>}) : FitOK(c)}
-                   \cup {c \in AffineCases({1, 4, 11, 20, 31, 46}, ToSet(Forms)) : AffOK(c)}
-                   \cup HistCases({5, 26}, 4) \cup {c \in AnchCases({1, 2}, {2, 30}) : AnchOK(c)}
-                   \cup FarCases(DOMAIN FarSets, DOMAIN FarCentres, 1..10, 1)
-CasesThorough(z) == {c \in FitCases(DOMAIN PointSets, 1..48, {Zero3, <<1, 0, 0>>, <<0, -2, 1>>, <<3, 3, 3>>}) : FitOK(c)}
-                   \cup {c \in AffineCases(1..48, {"f32", "i64"}) : AffOK(c)}
-                   \cup {c \in AffineCases({1, 4, 7, 11, 15, 20, 26, 31, 38, 42, 46, 48}, ToSet(Forms)) : AffOK(c)}
-                   \cup HistCases({5, 26, 40}, 4) \cup HistCases({5}, 5) \cup {c \in AnchCases({1, 2, 3}, {2, 9, 30, 41}) : AnchOK(c)}
-                   \cup FarCases(DOMAIN FarSets, DOMAIN FarCentres, DOMAIN FarQuats, 1)
-                   \cup FarCases(DOMAIN FarSets, DOMAIN FarCentres, DOMAIN FarQuats, 3)
-Cases == CASE Tier = "tiny" -> CasesTiny(0) [] Tier = "quick" -> CasesQuick(0) [] Tier = "thorough" -> CasesThorough(0)
+\* large structures: three layouts (a displaced block early and off-centre, in the middle, at the end;
+\* a spread-out block at the end), with and without the displacement, sizes across 4096 / 8192 and 10^4
+BigLayouts(n, e) == <<
+  << <<PointSets[10], n \div 10, 1, <<5, 0, 0>>, VScale(e, <<0, 3, 0>>)>>, <<PointSets[10], n - (n \div 10) - (n \div 3), 1, Zero3, Zero3>>,
+     <<PointSets[11], n \div 3, 3, <<-2, 0, 1>>, Zero3>> >>,
+  << <<PointSets[12], n - (n \div 12) - (n \div 4), 1, Zero3, Zero3>>, <<PointSets[10], n \div 12, 1, <<0, 4, 0>>, VScale(e, <<0, 0, 2>>)>>,
+     <<PointSets[11], n \div 4, 4, Zero3, Zero3>> >>,
+  << <<PointSets[11], n - (n \div 8), 2, Zero3, Zero3>>, <<PointSets[10], n \div 8, 1, <<0, -6, 0>>, VScale(e, <<2, 0, -1>>)>> >> >>
+BigForms == SelectSeq(Forms, LAMBDA f : f # "f16")
+BigDepths == <<<<0, 0>>, <<1, 0>>, <<0, 2>>, <<0, 1>>, <<1, 2>>>>
+\* selections of whole blocks: none / without the first block / without the last block
+BigSel(L, s) == CASE s = 0 -> <<>> [] s = 1 -> <<[b \in DOMAIN L |-> b # 1]>> [] OTHER -> <<[b \in DOMAIN L |-> b # Len(L)]>>
+BigCases(NS, GI) ==
+  {LET key == n + gi + 2 * l + 5 * e + 3 * s
+       dp == BigDepths[(key % Len(BigDepths)) + 1]
+       L == BigLayouts(n, e)[l]
+   IN <<"big", <<L, gi, key % 5, dp[1], dp[2],
+                 BigForms[(key % Len(BigForms)) + 1], BigForms[((3 * key + l) % Len(BigForms)) + 1],
+                 BigSel(L, s), MaskFormOf(key + (n \div 7), BigSel(L, s))>>>> :
+      n \in NS, gi \in GI, l \in 1..3, e \in {0, 1}, s \in 0..2}
+BigSizes == {24, 37, 4095, 4096, 4097, 6000, 8191, 8193, 10000}
+
+\* The cases of a tier, as a SEQUENCE of small sets that Init enumerates one after the other.  TLC evaluates
+\* constant sets at start-up and sorts each of them with a quadratic insertion sort (ValueVec.sort; measured:
+\* 58-75 s for the union of 15,596 cases, 1-4 s for each family alone): the families are therefore cut along one
+\* of their independent dimensions (point set, group element).  Equal cases of two overlapping sets are one state.
+FitFams(NZ) == [p \in DOMAIN PointSets |-> {c \in FitCases({p}, 1..48, NZ) : FitOK(c)}]
+AffFams(GIs, FS) == [i \in DOMAIN GIs |-> {c \in AffineCases({GIs[i]}, FS) : AffOK(c)}]
+HistFams(Gs, L) == [i \in DOMAIN Gs |-> HistCases({Gs[i]}, L)]
+AnchFams(CH, GIs) == [i \in DOMAIN GIs |-> {c \in AnchCases(CH, {GIs[i]}) : AnchOK(c)}]
+FarFams(PS, CS, QS, scale) == [p \in PS |-> FarCases({p}, CS, QS, scale)]
+FamsTiny == <<{c \in FitCases({3, 10}, {1, 2, 9}, {Zero3}) : FitOK(c)}, {c \in AffineCases({1, 20}, {"f32", "i64"}) : AffOK(c)},
+              HistCases({5}, 3), {c \in AnchCases({3}, {2}) : AnchOK(c)},
+              FarCases({1, 4}, {1, 4}, {1, 5, 10}, 1), BigCases({24, 4097, 6000}, {3})>>
+FamsQuick == FitFams({Zero3, <<1, 0, 0>>}) \o AffFams(<<1, 4, 11, 20, 31, 46>>, ToSet(Forms))
+               \o HistFams(<<5, 26>>, 4) \o AnchFams({1, 2}, <<2, 30>>)
+               \o FarFams(DOMAIN FarSets, DOMAIN FarCentres, 1..10, 1) \o <<BigCases(BigSizes, {3, 14})>>
+FamsThorough == FitFams({Zero3, <<1, 0, 0>>, <<0, -2, 1>>, <<3, 3, 3>>})
+                  \o AffFams([g \in 1..48 |-> g], {"f32", "i64"})
+                  \o AffFams(<<1, 4, 7, 11, 15, 20, 26, 31, 38, 42, 46, 48>>, ToSet(Forms))
+                  \o HistFams(<<5, 26, 40>>, 4) \o HistFams(<<5>>, 5) \o AnchFams({1, 2, 3}, <<2, 9, 30, 41>>)
+                  \o FarFams(DOMAIN FarSets, DOMAIN FarCentres, DOMAIN FarQuats, 1)
+                  \o FarFams(DOMAIN FarSets, DOMAIN FarCentres, DOMAIN FarQuats, 3)
+                  \o [g \in 1..5 |-> BigCases(BigSizes \cup {31, 2048, 5000, 12288, 12289, 12500}, {<<1, 3, 8, 14, 20>>[g]})]
+Fams == CASE Tier = "tiny" -> FamsTiny [] Tier = "quick" -> FamsQuick [] Tier = "thorough" -> FamsThorough
 
 (* ------------------------------------------------------------------ the model *)
 VARIABLES vcase, vout
 vars == <<vcase, vout>>
-Init == vcase \in Cases /\ vout = <<>>
+Init == vout = <<>> /\ \E f \in DOMAIN Fams : vcase \in Fams[f]
 Next == vout = <<>> /\ vout' = Evaluate(vcase) /\ UNCHANGED vcase
 Spec == Init /\ [][Next]_vars
 Done == vout # <<>>
